@@ -40,6 +40,7 @@ T_Handler ==
   /\ IF Ev.k = "connerr" THEN SReadErr(Ev.s)
      ELSE /\ SDispatch(Ev.s) /\ Head(down[Ev.s]).k = Ev.k
           /\ Ev.k = "complete" \/ (Head(down[Ev.s]).n = Ev.n /\ Ev.id = Ev.s)
+          /\ Ev.k # "next" \/ Ev.v = "d"       \* the payload as sent: data only, naming this frame
   /\ Keep
 T_Unsub == IsEvent("unsub") /\ Ev.s \in Subs /\ st[Ev.s].unsub /\ Same /\ Keep
 
